@@ -133,6 +133,7 @@ var tables = []string{"companies", "users", "profiles", "pets", "collars", "toys
 var (
 	errFault = errors.New("verif: injected driver fault (C05)")
 	errHook  = errors.New("verif: hook error (C05)")
+	errVeto  = errors.New("verif: error already on the handle (C05)")
 	cur      *runState
 )
 
@@ -253,6 +254,10 @@ type Op struct {
 	Sess  []string `json:"sess,omitempty"`
 	FwdID bool     `json:"fwd_id,omitempty"` // with NoRet: LastInsertId is the FIRST row's key (MySQL style) instead of the last (SQLite style)
 	Form  int      `json:"form,omitempty"`   // update_row / create_map(s): alternative form of the same call
+	// the operation is called on a handle that already carries an error when the first callback runs:
+	// "handle": h := db.Session(&Session{}); h.AddError(e) | "scope": a Scopes function that vetoes the write
+	// with AddError(e). Nothing may be sent (no BEGIN either), nothing stays open, Error is e.
+	Veto string `json:"veto,omitempty"`
 }
 
 type Input struct {
@@ -517,6 +522,13 @@ func doOp(db *gorm.DB, op Op) error {
 	if op.Unscoped {
 		db = db.Unscoped()
 	}
+	switch op.Veto {
+	case "handle":
+		db = db.Session(&gorm.Session{})
+		_ = db.AddError(errVeto)
+	case "scope":
+		db = db.Scopes(func(d *gorm.DB) *gorm.DB { _ = d.AddError(errVeto); return d })
+	}
 	switch op.Kind {
 	case "create":
 		u := buildUser(op.Users[0])
@@ -709,6 +721,8 @@ func runOnce(in Input, refDumps []string) (Observed, []string) {
 		o.ErrK = "fault"
 	case errors.Is(err, errHook):
 		o.ErrK = "hook"
+	case errors.Is(err, errVeto):
+		o.ErrK = "pre"
 	default:
 		o.ErrK = "other"
 		o.ErrText = err.Error()
@@ -752,11 +766,11 @@ func faultTerm(k int) string {
 }
 
 func term(in Input, free, o Observed, natural bool) string {
-	errk := map[string]string{"nil": "XNil", "fault": "XFault", "hook": "XHook", "other": "XOther"}[o.ErrK]
+	errk := map[string]string{"nil": "XNil", "fault": "XFault", "hook": "XHook", "other": "XOther", "pre": "XPre"}[o.ErrK]
 	return lib.App("mk_case",
 		lib.ListOf(free.Evs, evTerm), faultTerm(in.DFault), faultTerm(in.HFault), lib.Bool(natural),
 		lib.ListOf(o.Evs, evTerm), errk, lib.Bool(o.Wrapped),
-		lib.ListOf(o.Match, lib.Bool), lib.Z(o.InUse), lib.Z(o.OpenTx))
+		lib.ListOf(o.Match, lib.Bool), lib.Z(o.InUse), lib.Z(o.OpenTx), lib.Bool(in.Op.Veto != ""))
 }
 
 // ---------------------------------------------------------------- generators
@@ -1101,7 +1115,7 @@ func sig(in Input) string {
 
 func shape(in Input, free Observed) string {
 	var sb strings.Builder
-	fmt.Fprintf(&sb, "%v %v %s fs=%v sel=%v |", in.Pre, in.Op.Sess, in.Op.Kind, in.Op.FullSave, in.Op.Select)
+	fmt.Fprintf(&sb, "%v %v %s%s fs=%v sel=%v |", in.Pre, in.Op.Sess, in.Op.Kind, in.Op.Veto, in.Op.FullSave, in.Op.Select)
 	for _, e := range free.Evs {
 		switch e.K {
 		case "op":
@@ -1124,6 +1138,8 @@ func main() {
 	// one operation: the fault-free run, then one run per driver operation and per hook invocation
 	addOp := func(kind string, in Input, onlyD, onlyH int) {
 		in.DFault, in.HFault = -1, -1
+		veto := in.Op.Veto // (replay / corpus of such a case) the fault-free reference run is the operation without it
+		in.Op.Veto = ""
 		free, dumps := runOnce(in, nil)
 		if free.ErrK != "nil" {
 			// the operation fails by itself (empty slice, constraint ...): no model prediction, but the
@@ -1146,7 +1162,7 @@ func main() {
 		}
 		one := func(in Input) {
 			o := free
-			if in.DFault >= 0 || in.HFault >= 0 {
+			if in.DFault >= 0 || in.HFault >= 0 || in.Op.Veto != "" {
 				// DeleteBeforeAssociations ranges over a Go map: the order of the association
 				// deletes differs from run to run. The faulted run is repeated until its events
 				// are a prefix of the fault-free run's (same order), at most 80 times.
@@ -1200,8 +1216,8 @@ func main() {
 				out.Count("other_error", o.ErrText)
 			}
 		}
-		if onlyD >= 0 || onlyH >= 0 {
-			in.DFault, in.HFault = onlyD, onlyH
+		if onlyD >= 0 || onlyH >= 0 || veto != "" {
+			in.DFault, in.HFault, in.Op.Veto = onlyD, onlyH, veto
 			one(in)
 			return
 		}
@@ -1238,6 +1254,15 @@ func main() {
 			}
 		}
 		in.ErrKind = ""
+		// the same operation on a handle that already carries an error (every armed fault position is
+		// irrelevant: nothing may be sent). CreateInBatches is left out: its wrapping Transaction is an
+		// explicit block (Begin does not look at the handle's error), C04's subject.
+		if !strings.Contains(in.Op.Kind, "batches") && in.Op.BatchSize == 0 {
+			in.DFault, in.HFault = []int{-1, 0}[(nops/2)%2], -1 // an armed fault changes nothing: no driver operation is reached
+			in.Op.Veto = []string{"handle", "scope"}[(nops+nhooks)%2]
+			one(in)
+			in.Op.Veto = ""
+		}
 	}
 
 	readCase := func(f string) Input {
